@@ -355,7 +355,8 @@ class Generator:
         # body tokens (full, ws/comments kept, doc comments dropped)
         a = sf.ct[it.body_open].end
         b = sf.ct[it.body_close].start
-        body = [t for t in sf.toks if t.start >= a and t.end <= b and t.kind != "doc"]
+        body = [Tok(t.kind, t.text, t.start, t.end, t.line) for t in sf.toks
+                if t.start >= a and t.end <= b and t.kind != "doc"]
         body = self.rewrite_body(body, spec, rec)
         self.emit("{")
         pre = self.param_prologue(header, spec)
@@ -414,11 +415,17 @@ class Generator:
         newparams = []
         self._mut_params = []
         self._pat_params = []
+        self._mut_self = False
         n_pat = 0
         for arg in split_args(params):
             arg = [t for t in arg]
             txt = norm_tokens(arg)
-            if arg and arg[0].text == "mut" and len(arg) > 2 and arg[2].text == ":":
+            if arg and arg[0].text == "mut" and len(arg) == 2 and arg[1].text == "self":
+                # Verus: `mut self` unsupported -> `self` + `let mut __self = self;`, body `self` -> `__self`
+                self._mut_self = True
+                arg = arg[1:]
+                self.count("R0-mut-self")
+            elif arg and arg[0].text == "mut" and len(arg) > 2 and arg[2].text == ":":
                 self._mut_params.append(arg[1].text)
                 arg = arg[1:]
                 self.count("R0-mut-param")
@@ -470,10 +477,16 @@ class Generator:
             out.append("    let %s = %s;" % (pat, name))
         for m in self._mut_params:
             out.append("    let mut %s = %s;" % (m, m))
+        if self._mut_self:
+            out.append("    let mut __self = self;")
         return out
 
     # ------------------------------------------------------------------
     def rewrite_body(self, body, spec, rec):
+        if self._mut_self:
+            for t in body:
+                if t.kind == "ident" and t.text == "self":
+                    t.text = "__self"
         body = self.rw_macros(body, spec)
         if spec.valid and spec.opts.get("unwrap", "rt") == "rt":
             body = self.rw_unwrap(body, spec)
@@ -539,6 +552,14 @@ class Generator:
             t = body[i]
             if t.text == "." and t.kind == "punct":
                 j = next_code(body, i)
+                if j < len(body) and body[j].text == "expect":
+                    p = next_code(body, j)
+                    if p < len(body) and body[p].text == "(":
+                        q = match_close_full(body, p)
+                        out.append(synth(".rt_unwrap(Ghost(__valid))", t.line))
+                        self.count("R4-rt_unwrap")
+                        i = q + 1
+                        continue
                 if j < len(body) and body[j].text == "unwrap":
                     p = next_code(body, j)
                     if p < len(body) and body[p].text == "(":
@@ -744,6 +765,8 @@ class Generator:
                         break
                 j -= 1
             ins = j + 1
+        elif body[b].text == ";":
+            ins = b + 1
         else:
             depth = 0
             j = b + 1
